@@ -42,6 +42,40 @@ theorem Runs.ret_err {ext : Ext} {env : Env} {e : Expr} {err : PyErr} (h : evalE
     Runs ext (.ret e) env (.exc err env) :=
   runs_intro 0 fun k _ => by simp [exec, h]
 
+theorem Runs.unpack {ext : Ext} {env env' : Env} {xs : List String} {e : Expr} {v : Val} {l : List Val}
+    (h : evalExpr ext env e = .ok v) (hs : seqOf v = some l) (hb : bindAll env xs l = some env') :
+    Runs ext (.unpack xs e) env (.norm env') :=
+  runs_intro 0 fun k _ => by simp [exec, h, hs, hb]
+
+theorem Runs.unpack_err {ext : Ext} {env : Env} {xs : List String} {e : Expr} {err : PyErr} (h : evalExpr ext env e = .error err) :
+    Runs ext (.unpack xs e) env (.exc err env) :=
+  runs_intro 0 fun k _ => by simp [exec, h]
+
+theorem Runs.append {ext : Ext} {env : Env} {x : String} {e : Expr} {nl : Val}
+    (h : (lookup env x >>= fun l => evalExpr ext env e >>= fun v => appendVal l v) = .ok nl) :
+    Runs ext (.append x e) env (.norm (setVar env x nl)) :=
+  runs_intro 0 fun k _ => by simp [exec, h]
+
+theorem Runs.append_err {ext : Ext} {env : Env} {x : String} {e : Expr} {err : PyErr}
+    (h : (lookup env x >>= fun l => evalExpr ext env e >>= fun v => appendVal l v) = .error err) :
+    Runs ext (.append x e) env (.exc err env) :=
+  runs_intro 0 fun k _ => by simp [exec, h]
+
+theorem Runs.setIdx {ext : Ext} {env : Env} {x : String} {i e : Expr} {nl : Val}
+    (h : (evalExpr ext env e >>= fun v => lookup env x >>= fun l => evalExpr ext env i >>= fun k => setAt l k v) = .ok nl) :
+    Runs ext (.setIdx x i e) env (.norm (setVar env x nl)) :=
+  runs_intro 0 fun k _ => by simp [exec, h]
+
+theorem Runs.setIdx_err {ext : Ext} {env : Env} {x : String} {i e : Expr} {err : PyErr}
+    (h : (evalExpr ext env e >>= fun v => lookup env x >>= fun l => evalExpr ext env i >>= fun k => setAt l k v) = .error err) :
+    Runs ext (.setIdx x i e) env (.exc err env) :=
+  runs_intro 0 fun k _ => by simp [exec, h]
+
+theorem Runs.warn {ext : Ext} {env : Env} {e : Expr} {nl : Val}
+    (h : (lookup env "$log" >>= fun l => evalExpr ext env e >>= fun v => appendVal l v) = .ok nl) :
+    Runs ext (.warn e) env (.norm (setVar env "$log" nl)) :=
+  runs_intro 0 fun k _ => by simp [exec, h]
+
 theorem Runs.seq {ext : Ext} {a b : Stmt} {env env' : Env} {r : Res} (h1 : Runs ext a env (.norm env'))
     (h2 : Runs ext b env' r) : Runs ext (.seq a b) env r := by
   obtain ⟨N1, h1⟩ := h1
